@@ -245,6 +245,51 @@ func TestExhaustive(t *testing.T) {
 	ev.Exhaustive(fmt.Sprintf("all (N1,N2,T) with N1+N2 <= %d on the full half-integer grid", maxN))
 }
 
+// TestBigGroups enumerates tie vectors with one large group (every size up to the tied
+// limit) surrounded by a few small ones, at several positions: the binomials of a big tie
+// group enter the recurrence only there.
+func TestBigGroups(t *testing.T) {
+	if ev.Replaying() {
+		return
+	}
+	ev.Rule(rule)
+	var cases []*Case
+	small := [][]int{{}, {1}, {2}, {1, 1}, {1, 2}, {3}}
+	if !ev.Thorough() {
+		small = [][]int{{}, {1, 1}, {2}}
+	}
+	for g := 2; g <= 48; g++ {
+		for _, before := range small {
+			for _, after := range small {
+				T := append(append(append([]int{}, before...), g), after...)
+				if len(T) < 2 {
+					continue
+				}
+				N := 0
+				for _, x := range T {
+					N += x
+				}
+				if N > 50 {
+					continue
+				}
+				for _, n1 := range []int{N / 2, g / 2, N - 25} {
+					if n1 < 1 || n1 > 25 || N-n1 < 1 || N-n1 > 25 {
+						continue
+					}
+					nn := float64(n1 * (N - n1))
+					cases = append(cases, &Case{N1: n1, N2: N - n1, T: T, Us: []ev.F{ev.F(nn / 2), ev.F(math.Floor(nn / 3)), ev.F(math.Floor(nn*2/3) + 0.5)}})
+				}
+			}
+		}
+	}
+	ev.Parallel(t, len(cases), func(tb ev.TB, i int) {
+		if ev.MyShare(i) {
+			checkUDist.RunEnum(tb, cases[i])
+		}
+	})
+	ev.Exhaustive(fmt.Sprintf("tie vectors with one big group of every size 2..48 between small groups (%d distributions)", len(cases)))
+}
+
 func drawCase(t *rapid.T) *Case {
 	tieStyle := rapid.SampledFrom([]int{-1, 0, 1, 2, 3, 4, 4}).Draw(t, "tieStyle") // -1: T=nil
 	lim := 25
